@@ -422,7 +422,7 @@ def r4(ck):
                 nlog += 1
                 continue
             cs = [(show(c[0]), c[1]) for c in pth.conds]
-            reason = any(t.startswith("le(Level::") and v == 0 for t, v in cs) or any(t == "has_been_set()" and v != 0 for t, v in cs) or \
+            reason = any((t.startswith("le(Level::") or (t.startswith("ge(") and ", Level::" in t)) and v == 0 for t, v in cs) or any(t == "has_been_set()" and v != 0 for t, v in cs) or \
                 any(t in ("discr(arg1.meta)", "discr((*arg1).meta)") and v != 1 for t, v in cs)
             if not reason:
                 silent_bad += 1
